@@ -47,7 +47,7 @@ Definition check (c : case) : bool :=
   | CWrap tol b nt nb nd name user e => res_eqb xobj_eqb (wrap_xr tol b nt nb nd name user) e
   | CLocate tol x e => res_eqb geostate_eqb (locate_geo_info repaired tol x) e
   | CIsel x d s e => res_eqb xobj_eqb (isel x d s) e
-  | CElem x x' => elem_ok x x'
+  | CElem x x' => res_eqb xobj_eqb (elem_step x (x_dims x') (x_gm x') (x_attrs x')) (Ok x')
   | CReprojDa tol itol src dst nd e => res_eqb xobj_eqb (reproject_da repaired tol itol src dst nd) e
   | CReprojDs tol itol src dst nd e => res_eqb xobj_eqb (reproject_ds repaired tol itol src dst nd) e
   | CGetItem ds name e => opt_eqb xobj_eqb (ds_getitem ds name) e
